@@ -30,7 +30,7 @@ PROPS = {
 PROPS["C02"] = {
     "modules": ["C02"],
     "required_theorems": ["C02_holds", "step_ban"],
-    "monitors": ["C02"],
+    "monitors": ["C02"], "restart_fidelity": {"quick": 60, "thorough": 1500},
     "fields": ["ret", "net", "pj", "sj"],
     "campaign": camp([("lifecycle", 400), ("mixed", 300), ("rollback", 200), ("chaos", 200), ("release", 100), ("signing", 100)],
                      [("lifecycle", 6000), ("mixed", 5000), ("rollback", 3000), ("chaos", 3000), ("release", 2000), ("signing", 2000), ("damage", 2000)]),
@@ -111,10 +111,11 @@ PROPS["C20"] = {
 
 PROPS["C12"] = {
     "modules": ["C12"], "required_theorems": ["acts_wellFormed", "acts_sectionsAtomic", "progress", "busy_update_inert"], "monitors": ["C12"],
-    "fields": ["locks", "net"],
+    "fields": ["locks", "net"], "runtime_c12": True,
     "campaign": camp([("network", 400), ("mixed", 400), ("download", 300), ("chaos", 300), ("rollback", 200)],
                      [("network", 6000), ("mixed", 6000), ("download", 4000), ("chaos", 4000), ("rollback", 3000), ("lifecycle", 3000)]),
-    "assumptions": ["std::sync::Mutex semantics; 'promptly' (latency) is runtime: the model shows the absence of blocking dependencies",
+    "assumptions": ["std::sync::Mutex semantics; 'promptly' (latency) is runtime: the model shows the absence of blocking dependencies; the hung-update scenario (an update parked in each of its three network callbacks while every other call is timed from another thread, limit 10 s) exhibits it on the real library",
+                    "error paths after a failed file-system operation are not in the model (its file-system operations do not fail): they are scanned on the real library by failing every mutating call of sampled launches with EIO and watching for calls that never return",
                     "the lock hooks log acquisitions/releases of the two global locks on the calling thread; spawned threads only perform network callbacks (counted)"],
 }
 
@@ -161,7 +162,7 @@ PROPS["C11"] = {
     "modules": ["C11", "NonVacuity"], "required_theorems": ["C11_holds", "step11_A", "step11_B", "Inv11_start", "urun_eq_updateCore", "crun_eq_checkCore"],
     "monitors": ["C11"],
     "fields": ["ret", "pj", "pd", "sj", "sje"],
-    "campaign": camp([("conc", 1500)], [("conc", 30000)]),
+    "campaign": camp([("conc", 500)] * 3, [("conc", 2500)] * 12),
     "enumerate_schedules": True,
     "assumptions": ["interleaving granularity = acquisitions of the state lock (the only shared state is on disk and re-read inside every critical section; what a thread does between two sections depends on its own data only)",
                     "std::sync::Mutex gives mutual exclusion; the harness's scheduler parks each participating thread in the before_lock hook, so every real schedule at this granularity can be forced and replayed",
